@@ -87,6 +87,8 @@ def build():
     RD = [E('data_wf', 'self.data.wf()'), E('ents', 'ent_ok(self.entities)')]
     WR = [E('data_wf', 'old(self).data.wf()'), E('ents', 'ent_ok(old(self).entities)')]
     FRAME_W = [E('ents_same', 'final(self).entities == old(self).entities', 'C03 C04'),
+               # the handle keeps borrowing the SAME storage (needed by callers that let the handle die and then speak about the lender)
+               E('same_ref', '*final(final(self).data) == *final(old(self).data)', 'C04'),
                E('ev_frame', 'same_ev(&old(self).data.inner, &final(self).data.inner)', 'C12')]
     for (hdr, tag) in [(HR, '&'), (HW, '&mut')]:
         D = 'self.data' if tag == '&' else 'old(self.data)'
